@@ -1120,12 +1120,20 @@ func (l *Ledger) removeBlocksAbove(fromBlockid []byte, toBlockid []byte, batch k
 }
 
 // Truncate truncate ledger and set tipblock to utxovmLastID
-func (l *Ledger) Truncate(utxovmLastID []byte) error {
+func (l *Ledger) Truncate(utxovmLastID []byte) (retErr error) {
 	l.xlog.Info("start truncate ledger", "blockid", utils.F(utxovmLastID))
 
 	// 获取账本锁
 	l.mutex.Lock()
 	defer l.mutex.Unlock()
+	defer func() {
+		if retErr != nil {
+			// headers dropped from or rewritten in the caches on behalf of a truncation that was not written
+			// (next link of the target, removed blocks) must not outlive it
+			l.blkHeaderCache = cache.NewLRUCache(BlockCacheSize)
+			l.blockCache = cache.NewLRUCache(BlockCacheSize)
+		}
+	}()
 
 	batchWrite := l.baseDB.NewBatch()
 	newMeta := proto.Clone(l.meta).(*pb.LedgerMeta)
